@@ -8,27 +8,47 @@ use serde_json::{json, Value};
 use std::io::Write;
 use std::sync::Mutex;
 
-/// class sets are the subject of C09; the facts events keep the set only where an obligation needs it
-pub fn strip_sets(v: &Value) -> Value {
+/// the code points the trace specification evaluates class sets on: those written in the pattern, TAB LF CR and `x`
+pub fn probe_of(pat: &Value) -> Vec<u64> {
+    let mut p: Vec<u64> = pat.as_array().map(|a| a.iter().filter_map(|c| c.as_u64()).collect()).unwrap_or_default();
+    // ... and their other-case forms (under flag i the specification also asks about those)
+    let cased: Vec<u64> = p
+        .iter()
+        .filter_map(|c| char::from_u32(*c as u32))
+        .flat_map(|c| c.to_lowercase().chain(c.to_uppercase()).collect::<Vec<char>>())
+        .map(|c| c as u64)
+        .collect();
+    p.extend(cased);
+    p.extend_from_slice(&[9, 10, 13, 120, 88]);
+    p.sort();
+    p.dedup();
+    p
+}
+
+/// class sets are the subject of C09; in the facts events a set of more than 64 intervals is cut down to its
+/// members among the probe code points (exact on every code point FactsTrace.tla asks about)
+pub fn strip_sets(v: &Value, probe: &[u64]) -> Value {
     match v {
         Value::Object(o) => {
             let mut m = serde_json::Map::new();
             for (k, x) in o {
                 if k == "set" && o.get("k") == Some(&json!("class")) && o.len() == 2 {
-                    // keep the set of a bare class (preconditions use it), but cap its size
-                    if x.as_array().map(|a| a.len()).unwrap_or(0) <= 64 {
+                    let iv = x.as_array().cloned().unwrap_or_default();
+                    if iv.len() <= 64 {
                         m.insert(k.clone(), x.clone());
                     } else {
-                        m.insert(k.clone(), json!([[0, 1114111]]));
-                        m.insert("wide".to_string(), json!(true));
+                        let has = |c: u64| iv.iter().any(|r| r[0].as_u64().unwrap_or(1) <= c && c <= r[1].as_u64().unwrap_or(0));
+                        let kept: Vec<Value> = probe.iter().filter(|c| has(**c)).map(|c| json!([c, c])).collect();
+                        m.insert(k.clone(), Value::Array(kept));
+                        m.insert("probe".to_string(), json!(true));
                     }
                 } else {
-                    m.insert(k.clone(), strip_sets(x));
+                    m.insert(k.clone(), strip_sets(x, probe));
                 }
             }
             Value::Object(m)
         }
-        Value::Array(a) => Value::Array(a.iter().map(strip_sets).collect()),
+        Value::Array(a) => Value::Array(a.iter().map(|x| strip_sets(x, probe)).collect()),
         x => x.clone(),
     }
 }
@@ -109,6 +129,31 @@ pub fn main(args: &[String]) -> i32 {
                     _ => format!("[\\{}{{{}{}}}a]", neg, rng.pick(&letters), rng.pick(&letters)),
                 };
             }
+            "escpairs" => {
+                // the same category / block / multi-character escape twice in one pattern, in both polarities
+                let cats = ["L", "Lu", "Ll", "Lt", "Lm", "Lo", "M", "Mn", "Mc", "Me", "N", "Nd", "Nl", "No", "P", "Pc", "Pd", "Ps",
+                    "Pe", "Pi", "Pf", "Po", "Z", "Zs", "Zl", "Zp", "S", "Sm", "Sc", "Sk", "So", "C", "Cc", "Cf", "Co", "Cn",
+                    "IsBasicLatin", "IsGreek", "IsLatin-1Supplement", "IsCyrillic", "IsDeseret", "IsCJKUnifiedIdeographs"];
+                let k = iter_k as usize;
+                let (pos, neg) = if k % 5 == 4 {
+                    let e = *rng.pick(&['d', 'w', 's', 'i', 'c']);
+                    (format!("\\{}", e), format!("\\{}", e.to_ascii_uppercase()))
+                } else {
+                    let c = cats[(k / 5) % cats.len()];
+                    (format!("\\p{{{}}}", c), format!("\\P{{{}}}", c))
+                };
+                pat = match (k / 7) % 9 {
+                    0 => format!("{}{}", pos, neg),
+                    1 => format!("{}{}", neg, pos),
+                    2 => format!("[{}-[{}]]", pos, neg),
+                    3 => format!("[^{}]{}", pos, pos),
+                    4 => format!("({})({})", neg, pos),
+                    5 => format!("{}+{}+{}", pos, neg, pos),
+                    6 => format!("^[{}a]{}[^{}]$", neg, pos, neg),
+                    7 => format!("{}|{}{}", neg, pos, pos),
+                    _ => format!("[{}-[{}]]{}", neg, pos, neg),
+                };
+            }
             "bounds" => {
                 // every (body, bound, form) combination is visited in turn; context and second bound are random
                 let k = iter_k as usize;
@@ -140,6 +185,10 @@ pub fn main(args: &[String]) -> i32 {
         if mode == "garbage" {
             inputs[0] = gen::garbage(&mut rng, 24);
         }
+        if mode == "escpairs" {
+            let palette: Vec<char> = "aB1 _-\u{e9}\u{3a3}\u{436}\u{4e2d}\u{10400}+.\n\u{20ac}\u{300}\u{2160}\u{ad}\u{e000}\u{378}(\u{ab}".chars().collect();
+            inputs = (0..4).map(|_| (0..(1 + rng.below(3))).map(|_| *rng.pick(&palette)).collect::<String>()).collect();
+        }
         if mode == "bounds" {
             inputs = vec!["".to_string(), "a".to_string(), "xxaaa".to_string(), "aaaaaaaaab".to_string()];
         }
@@ -157,10 +206,13 @@ pub fn main(args: &[String]) -> i32 {
         }
         if mode == "threads" {
             // a history on two shared Regex objects, executed from 4 threads (C18); the tracer hook logs every call
-            let pat2 = gen::gen_pattern(&mut rng, &p, false);
+            // the second object: another pattern, or (one job in four) the SAME text compiled under the other dialect
+            let same_text = rng.chance(25);
+            let pat2 = if same_text { pat.clone() } else { gen::gen_pattern(&mut rng, &p, false) };
+            let x2 = if same_text { xsd } else { true };
             let mut hist = vec![
                 json!({"op":"compile","r":1,"pat":string_to_cps(&pat),"flags":string_to_cps(&flags),"x":!xsd}),
-                json!({"op":"compile","r":2,"pat":string_to_cps(&pat2),"flags":string_to_cps(&flags),"x":true}),
+                json!({"op":"compile","r":2,"pat":string_to_cps(&pat2),"flags":string_to_cps(&flags),"x":x2}),
             ];
             let mut itn = 0;
             for _ in 0..(6 + rng.below(8)) {
@@ -212,9 +264,10 @@ pub fn main(args: &[String]) -> i32 {
         if let Some(fa) = reply.get("facts") {
             if fa.get("minlen").is_some() {
                 let opt = |v: &Value| if v.is_null() { json!({"some": false, "v": []}) } else { json!({"some": true, "v": v}) };
+                let probe = probe_of(&job["pat"]);
                 let ev = json!({"ev":"facts","pat":job["pat"],"flags":job["flags"],"xpath":job["x"],
                                 "facts":{"prefix":opt(&fa["prefix"]),"initial":opt(&fa["initial"]),"minlen":fa["minlen"],
-                                         "hasbol":fa["hasbol"],"pre":strip_sets(&fa["pre"]),"ops":strip_sets(&fa["ops"])}});
+                                         "hasbol":fa["hasbol"],"pre":strip_sets(&fa["pre"], &probe),"ops":strip_sets(&fa["ops"], &probe)}});
                 let _ = writeln!(facts_out.lock().unwrap(), "{}", ev);
             }
         }
